@@ -11,15 +11,16 @@ Harvest == IOEnv.HARVEST = "1"
 VARIABLES pidx,       \* program under exploration (0 = not started)
           hist,       \* shell actions so far
           needTake,   \* a shell action has been made; the inspection calls come next
+          inTake,     \* the inspection calls are running (nothing runs between batched shell actions)
           cancelAt,   \* task key -> emission counter when it was cancelled (abort)
           outs        \* what the last inspection returned (for printing)
 
-mvars == <<pidx, hist, needTake, cancelAt, outs>>
+mvars == <<pidx, hist, needTake, inTake, cancelAt, outs>>
 vars == <<cvars, mvars>>
 
 RootKey == <<0, RootId(Progs[pidx])>>
 
-MInit == Init /\ pidx = 0 /\ hist = <<>> /\ needTake = FALSE /\ cancelAt = <<>> /\ outs = <<>>
+MInit == Init /\ pidx = 0 /\ hist = <<>> /\ needTake = FALSE /\ inTake = FALSE /\ cancelAt = <<>> /\ outs = <<>>
 
 MStart ==
   /\ pidx = 0
@@ -27,57 +28,66 @@ MStart ==
        /\ pidx' = p
        /\ Start(Progs[p], 0)
   /\ hist' = << [a |-> "run", p |-> 0] >>
-  /\ needTake' = TRUE
+  /\ needTake' = TRUE /\ inTake' = TRUE
   /\ UNCHANGED <<cancelAt, outs>>
 
 Held == {r \in DOMAIN reqs : reqs[r].held}
 
+\* shell actions may be batched: a further action before the command has been inspected again
+Acts == Cardinality({i \in DOMAIN hist : hist[i].a # "take"})
 MResolve ==
-  /\ pidx # 0 /\ ~needTake /\ Len(hist) < MaxAct
+  /\ pidx # 0 /\ ~inTake /\ Acts < MaxAct
   /\ \E r \in Held :
        /\ ResolveResult(r) = "ok"
        /\ \E al \in Aliases(r) : Resolve(r, reqs[r].nres + 1, al)
        /\ hist' = Append(hist, [a |-> "resolve", o |-> r, val |-> reqs[r].nres + 1])
   /\ needTake' = TRUE
-  /\ UNCHANGED <<pidx, cancelAt, outs>>
+  /\ UNCHANGED <<pidx, inTake, cancelAt, outs>>
 
 MDrop ==
-  /\ pidx # 0 /\ ~needTake /\ Len(hist) < MaxAct
+  /\ pidx # 0 /\ ~inTake /\ Acts < MaxAct
   /\ \E r \in Held :
        /\ reqs[r].senderAlive /\ reqs[r].kind # "never"
        /\ \E al \in Aliases(r) : DropReq(r, al)
        /\ hist' = Append(hist, [a |-> "drop", o |-> r])
   /\ needTake' = TRUE
-  /\ UNCHANGED <<pidx, cancelAt, outs>>
+  /\ UNCHANGED <<pidx, inTake, cancelAt, outs>>
 
 \* abort any command that exists and is not finished; remember where its tasks stood
 MAbort ==
-  /\ pidx # 0 /\ ~needTake /\ Len(hist) < MaxAct
+  /\ pidx # 0 /\ ~inTake /\ Acts < MaxAct
   /\ \E c \in DOMAIN cmds :
        /\ cmds[c].alive /\ ~cmds[c].aborted
        /\ AbortCmd(c)
        /\ hist' = Append(hist, [a |-> "abort", c |-> c])
        /\ cancelAt' = [t \in SubtreeTasks(St, c) |-> tasks[t].en] @@ cancelAt
   /\ needTake' = TRUE
-  /\ UNCHANGED <<pidx, outs>>
+  /\ UNCHANGED <<pidx, inTake, outs>>
 
 \* abort(h) inside a poll: the target is cancelled from here on
+MBeginTake ==
+  /\ needTake /\ ~inTake
+  /\ inTake' = TRUE
+  /\ hist' = Append(hist, [a |-> "take"])
+  /\ UNCHANGED <<cvars, pidx, needTake, cancelAt, outs>>
+
 MInternal ==
+  /\ inTake
   /\ Internal
   /\ cancelAt' = IF run # NONE /\ tasks[run].pc <= Len(tasks[run].code) /\ tasks[run].code[tasks[run].pc].op = "abort"
                  THEN LET b == tasks[run].handles[tasks[run].code[tasks[run].pc].h] IN
                       IF tasks[b].st = "live" /\ b \notin DOMAIN cancelAt THEN (b :> tasks[b].en) @@ cancelAt ELSE cancelAt
                  ELSE cancelAt
-  /\ UNCHANGED <<pidx, hist, needTake, outs>>
+  /\ UNCHANGED <<pidx, hist, needTake, inTake, outs>>
 
 MTake ==
-  /\ needTake
+  /\ needTake /\ inTake
   /\ outs' = {Strip(i) : i \in cmds[RootKey].out}
   /\ Take(RootKey)
-  /\ needTake' = FALSE
+  /\ needTake' = FALSE /\ inTake' = FALSE
   /\ UNCHANGED <<pidx, hist, cancelAt>>
 
-MNext == MStart \/ MResolve \/ MDrop \/ MAbort \/ MInternal \/ MTake
+MNext == MStart \/ MResolve \/ MDrop \/ MAbort \/ MBeginTake \/ MInternal \/ MTake
 
 MSpec == MInit /\ [][MNext]_vars
 
@@ -128,7 +138,7 @@ ThenSequential ==
      => LET a == <<h[1], RootId(tasks[h].code[1].cmd)>> IN ~cmds[a].alive /\ cmds[a].out = {}
 
 \* terminal behaviours, printed once each, become replay schedules
-Terminal == pidx # 0 /\ ~needTake /\ (Len(hist) >= MaxAct \/ ~ENABLED (MResolve \/ MDrop \/ MAbort))
+Terminal == pidx # 0 /\ ~needTake /\ (Acts >= MaxAct \/ ~ENABLED (MResolve \/ MDrop \/ MAbort))
 EmitSched == (Harvest /\ Terminal) => PrintT(<<"SCHED", ToJson([p |-> pidx - 1, steps |-> hist])>>)
 
 =============================================================================
